@@ -28,7 +28,7 @@ one() {
   rm -rf "$S"
 }
 export -f one; export V ROOT ALL
-ls ${@:-refactors/*}/refactor*.diff | xargs -P "$J" -I{} bash -c 'one {}' | tee "$ROOT.out"
+for d in ${@:-refactors/*}; do ls "$d"/refactor*.diff; done | xargs -P "$J" -I{} bash -c 'one {}' | tee "$ROOT.out"
 rc=0; grep -q '^ALARM' "$ROOT.out" && rc=1
 rm -rf "$ROOT" "$ROOT.out"
 exit $rc
